@@ -168,6 +168,9 @@ class Job:
         return f
 
     def done(self):
+        for q in H.STATS.samples[:2]:
+            if len(self.res["samples"]) < 4:
+                self.res["samples"].append(dict(query=q))
         self.res["solver"] = dict(H.STATS.as_dict(), feas_queries=E.ENG.stats["feas_queries"],
                                   feas_s=round(E.ENG.stats["feas_time"], 3))
         return self.res
